@@ -310,10 +310,17 @@ fn main() {
           continue;
         }
         match sig_of(ms.name, &f).and_then(|sig| expr::translate_fn(ms, &sig, &f, &sigs)) {
-          Ok((code, callees)) => items.push(ItemOut {
-            name, kind: "fn".into(), line_start: ls, line_end: le, cfg: cfgs,
-            status: "translated".into(), code, callees,
-          }),
+          Ok((code, callees)) => {
+            // a plain-private free function is a helper of the functions around it: proofs about
+            // those see through it (hint database bm_helpers, used by the generic tactics)
+            let code = if matches!(f.vis, syn::Visibility::Inherited) {
+              format!("{}\n#[global] Hint Unfold {} : bm_helpers.", code, name)
+            } else { code };
+            items.push(ItemOut {
+              name, kind: "fn".into(), line_start: ls, line_end: le, cfg: cfgs,
+              status: "translated".into(), code, callees,
+            })
+          }
           Err(e) => {
             if module_error.is_none() {
               module_error = Some(format!("fn {} (line {}): {}", name, ls, e));
